@@ -37,6 +37,10 @@ class BuildError(Exception):
 
 
 def _copy_sources(dst):
+    # the repository's own build script decides how the extension is compiled (flags, Cython directives)
+    sp = os.path.join(REPO, "setup.py")
+    if os.path.exists(sp):
+        shutil.copy2(sp, os.path.join(dst, "setup.py"))
     src = os.path.join(REPO, "xdeps")
     if not os.path.isdir(src):
         raise BuildError(f"no xdeps package in {REPO}")
@@ -54,6 +58,10 @@ def _refs_key(path):
     h = hashlib.sha256()
     with open(path, "rb") as fh:
         h.update(fh.read())
+    sp = os.path.join(os.path.dirname(os.path.dirname(path)), "setup.py")
+    if os.path.exists(sp):
+        with open(sp, "rb") as fh:
+            h.update(b"setup.py:" + fh.read())
     h.update(CFLAGS.encode())
     h.update(sys.version.encode())
     try:
@@ -79,14 +87,16 @@ def _prune_cache():
 
 def _compile(dst):
     """cythonize xdeps/refs.py inside dst (in place); returns path of the .so"""
-    with open(os.path.join(dst, "setup_scratch.py"), "w") as fh:
-        fh.write(SETUP_PY)
+    script = "setup.py" if os.path.exists(os.path.join(dst, "setup.py")) else "setup_scratch.py"
+    if script == "setup_scratch.py":
+        with open(os.path.join(dst, script), "w") as fh:
+            fh.write(SETUP_PY)
     env = dict(os.environ)
     env["CFLAGS"] = CFLAGS
     env.pop("PYTHONPATH", None)
     bt = os.path.join(dst, "_bt")
     p = subprocess.run(
-        [PY, "setup_scratch.py", "-q", "build_ext", "--inplace", "--build-temp", bt],
+        [PY, script, "-q", "build_ext", "--inplace", "--build-temp", bt],
         cwd=dst, env=env, stdout=subprocess.PIPE, stderr=subprocess.STDOUT, text=True)
     if p.returncode != 0:
         raise BuildError("cythonize/compile of refs.py failed:\n" + p.stdout[-4000:])
